@@ -26,21 +26,30 @@ TIERS = {
         # arity 2 = (V minus the 65600-byte string)^2  U  {0,"a",65600-byte string,({1,"a"})}^2 : printing that string in a
         # "Bad argument" message costs 0.2-0.5 s of CPU under ASan (the driver grows its outbuf one byte at a time)
         ("main", dict(op0="full", op1="full", op2="nolong", op3="s12", op4="s6",
-                      ck0="full", ck1="full", ck2="s17", ck3="s12", ck4="s6", sp2="s17", sp3="s12",
+                      ck0="full", ck1="full", ck2="s17", ck3="s12", ck4="s6", sp2="s17", sp3="s12", nc2="s12",
                       ef0="full", ef1="full", ef2="nolong", ef3="s8", ef4="s6o")),
         ("long2", dict(op0="none", op1="none", op2="l4", op3="none", op4="none",
-                       ck0="none", ck1="none", ck2="none", ck3="none", ck4="none", sp2="none", sp3="none",
+                       ck0="none", ck1="none", ck2="none", ck3="none", ck4="none", sp2="none", sp3="none", nc2="none",
                        ef0="none", ef1="none", ef2="l4", ef3="none", ef4="none")),
+        # small-MaxStringLength configuration (300) with a string 20 bytes short of the limit in the alphabet
+        # n9 = {0,1,-1,2^63-1,"a","abc",taint,<MaxStringLength-20 bytes>,({1,"a"})}, n6 = {0,1,2^63-1,"abc",taint,<near>}:
+        # results that grow past the limit (replace_string, +, sprintf, implode, repeat_string, ...)
+        ("nearmax", dict(op0="none", op1="n9", op2="n9", op3="none", op4="n6", ck0="none", ck1="none", ck2="none", ck3="none", ck4="none", sp2="none", sp3="none", nc2="none",
+                         ef0="none", ef1="n9", ef2="n9", ef3="n9", ef4="n6", **{"max-string": "300"})),
     ],
     "thorough": [
         ("main", dict(op0="full", op1="full", op2="full", op3="full", op4="s8",
-                      ck0="full", ck1="full", ck2="full", ck3="s16", ck4="s8", sp2="full", sp3="s16",
+                      ck0="full", ck1="full", ck2="nolong", ck3="s16", ck4="s8", sp2="full", sp3="s16", nc2="s17",
                       ef0="full", ef1="full", ef2="full", ef3="s12", ef4="s8")),
         # the same calls with ArgumentsInTrace / LocalVariablesInTrace switched on: every LPC error then renders the
         # arguments and locals of every frame into the trace
         ("trace", dict(op0="full", op1="full", op2="s16", op3="none", op4="none",
-                       ck0="none", ck1="full", ck2="s12", ck3="none", ck4="none", sp2="s12", sp3="none",
+                       ck0="none", ck1="full", ck2="s12", ck3="none", ck4="none", sp2="s12", sp3="none", nc2="s12",
                        ef0="full", ef1="full", ef2="s12", ef3="none", ef4="none", **{"trace-args": "1"})),
+        ("nearmax", dict(op0="none", op1="n9", op2="n9", op3="n9", op4="n6", ck0="none", ck1="none", ck2="none", ck3="none", ck4="none", sp2="none", sp3="none", nc2="none",
+                         ef0="none", ef1="n9", ef2="n9", ef3="n9", ef4="n6", **{"max-string": "300"})),
+        ("nearmax64", dict(op0="none", op1="n9", op2="n9", op3="n9", op4="n6", ck0="none", ck1="none", ck2="none", ck3="none", ck4="none", sp2="none", sp3="none", nc2="none",
+                           ef0="none", ef1="n9", ef2="n9", ef3="n9", ef4="n6", **{"max-string": "64"})),
     ],
 }
 DEADLINE = {"quick": 185, "thorough": 2100}
@@ -97,7 +106,7 @@ def run(ck):
     excluded = [l.rstrip("\n").split("\t") for l in open(os.path.join(gen_dir(), "excluded.txt"))]
     all_efuns = [l.split("\t")[0] for l in open(os.path.join(gen_dir(), "efuns.txt"))]
     uncompiled = sorted("%s: %s" % (f["name"], f["cerr"]) for f in stats.values() if not f["compiled"])
-    ops = [f for f in stats.values() if f["kind"] in ("op", "ck", "sp")]
+    ops = [f for f in stats.values() if f["kind"] in ("op", "ck", "sp", "nc")]
     rule = ("every element of  U_forms  A(kind,arity)^arity : forms = %d operator forms (binary/unary/assignment operators on local, global, "
             "indexed, reverse-indexed, class-member, char targets; index/rindex; 6 range + 6 range-lvalue forms; foreach; loops; casts; "
             "function pointers; calls; aggregates/varargs expansion; catch; switch; sscanf; parse_command) + %d efun wrappers (every efun of "
@@ -133,7 +142,7 @@ def selftest(ck):
     exe = build(ck)["h_c01"]
     want = {1: "asan:heap-buffer-overflow:READ", 2: "vm-imbalance:sp:", 3: "format-taint:snprintf:", 4: "pc-outside-program:", 5: "driver-exit:exit(3)", 6: "after-call-probe:wrong-result:"}
     bad = 0
-    alpha = dict(op0="none", op1="none", op2="s6", op3="none", op4="none", ck0="none", ck1="none", ck2="none", ck3="none", ck4="none", sp2="none", sp3="none", ef0="none", ef1="none", ef2="none", ef3="none", ef4="none")
+    alpha = dict(op0="none", op1="none", op2="s6", op3="none", op4="none", ck0="none", ck1="none", ck2="none", ck3="none", ck4="none", sp2="none", sp3="none", nc2="none", ef0="none", ef1="none", ef2="none", ef3="none", ef4="none")
     for st, key in want.items():
         ck2 = vlib.Check("C01", "quick", 0, LEVEL)
         tag = "selftest%d" % st
